@@ -301,7 +301,11 @@ func runOp(c *vu.Case) {
 	if a["filt"] == "1" {
 		// the configured address filter drops private (10.x) addresses
 		opts = append(opts, AddressFilter(func(in []ma.Multiaddr) []ma.Multiaddr {
+			// when nothing passes, half of the cases get nil back and half an empty slice (what ma.FilterAddrs returns)
 			var out []ma.Multiaddr
+			if atoi(a["key"])%2 == 0 {
+				out = make([]ma.Multiaddr, 0, len(in))
+			}
 			for _, m := range in {
 				if !strings.HasPrefix(m.String(), "/ip4/10.") {
 					out = append(out, m)
